@@ -64,7 +64,7 @@ impl Scenario for C06 {
     fn runs(&self, tier: Tier) -> u64 {
         match tier {
             Tier::Quick => 10_000,
-            Tier::Thorough => 500_000,
+            Tier::Thorough => 4_000_000,
         }
     }
 
